@@ -244,7 +244,7 @@ func init() {
 		sort.Strings(fns)
 		family := []string{"builtin", "builtin", "funcs", "funcs", "time", "range", "timeparse", "timefuncs"}[t.W(8)]
 		sc := genPipeScenario(rc, true, 30)
-		sc.MatcherKind, sc.Pattern = 1, c10Pattern
+		sc.MatcherKind, sc.Pattern, sc.IgnoreCase = 1, c10Pattern, false
 		sc.Ignores = nil
 		sc.Workers = t.WRange(1, 4)
 		if family == "range" && sc.Workers == 1 {
